@@ -305,6 +305,54 @@ func registerIntrinsics(ex *Executor) {
 		return nil, cNext
 	}
 
+	I["(*sync.Map).LoadAndDelete"] = func(ex *Executor, st *State, cc *CallCtx, args []Val) (Val, ctl) {
+		if ex.maybeSwitch(st) {
+			return nil, cSwitch
+		}
+		p := args[0].(Ptr)
+		sm := ex.load(st, p).(*SyncMapV)
+		i := ex.findEntry(st, sm.Entries, args[1])
+		if i < 0 {
+			return TupleV{IfaceV{}, smt.False}, cNext
+		}
+		v := sm.Entries[i].V
+		ne := append([]MapEntry(nil), sm.Entries[:i]...)
+		ne = append(ne, sm.Entries[i+1:]...)
+		ex.store(st, p, &SyncMapV{ne})
+		return TupleV{v, smt.True}, cNext
+	}
+	I["(*sync.Map).LoadOrStore"] = func(ex *Executor, st *State, cc *CallCtx, args []Val) (Val, ctl) {
+		if ex.maybeSwitch(st) {
+			return nil, cSwitch
+		}
+		p := args[0].(Ptr)
+		sm := ex.load(st, p).(*SyncMapV)
+		i := ex.findEntry(st, sm.Entries, args[1])
+		if i >= 0 {
+			return TupleV{sm.Entries[i].V, smt.True}, cNext
+		}
+		ne := append(append([]MapEntry(nil), sm.Entries...), MapEntry{args[1], args[2]})
+		ex.store(st, p, &SyncMapV{ne})
+		return TupleV{args[2], smt.False}, cNext
+	}
+	I["(*sync.Map).Swap"] = func(ex *Executor, st *State, cc *CallCtx, args []Val) (Val, ctl) {
+		if ex.maybeSwitch(st) {
+			return nil, cSwitch
+		}
+		p := args[0].(Ptr)
+		sm := ex.load(st, p).(*SyncMapV)
+		i := ex.findEntry(st, sm.Entries, args[1])
+		ne := append([]MapEntry(nil), sm.Entries...)
+		if i >= 0 {
+			old := ne[i].V
+			ne[i] = MapEntry{ne[i].K, args[2]}
+			ex.store(st, p, &SyncMapV{ne})
+			return TupleV{old, smt.True}, cNext
+		}
+		ne = append(ne, MapEntry{args[1], args[2]})
+		ex.store(st, p, &SyncMapV{ne})
+		return TupleV{IfaceV{}, smt.False}, cNext
+	}
 	// ---- sync/atomic: sequentially consistent cells (atomic by contract: not part of the access log) ----
 	for _, ty := range []string{"Int64", "Int32", "Uint64", "Uint32"} {
 		I["sync/atomic.Add"+ty] = func(ex *Executor, st *State, cc *CallCtx, args []Val) (Val, ctl) {
@@ -693,7 +741,16 @@ func (ex *Executor) blockCondChanged(st *State, t *Thread) bool {
 		if t.BlockMode == 'W' {
 			return !lv.W && lv.R == 0
 		}
-		return !lv.W
+		if lv.W {
+			return false
+		}
+		// a reader stays parked behind a pending writer (writer preference)
+		for _, o := range st.Threads {
+			if o != t && o.Status == Blocked && o.BlockKind == "lock" && o.BlockMode == 'W' && lockKey(o.BlockPtr) == lockKey(t.BlockPtr) {
+				return false
+			}
+		}
+		return true
 	case "wg":
 		w := getPath(st.Heap[t.BlockPtr.Obj], parsePath(t.BlockPtr.Path)).(*WaitGroupV)
 		return w.N == 0
